@@ -127,11 +127,11 @@ def one(m, args):
         if cp.returncode != 0:
             res["error"] = "does not import: " + cp.stderr[-300:]
             return res
-        if args.baseline:
+        if args.baseline or args.baseline_only:
             cp = run([os.path.join(ROOT, "tools", "baseline.py")], env=dict(os.environ, VERIF_REPO=d))
             res["baseline"] = cp.stdout.strip().splitlines()[0] if cp.stdout else "?"
             res["survives_baseline"] = cp.returncode == 0
-        todo = checks or args.default_checks
+        todo = [] if args.baseline_only else (checks or args.default_checks)
         env = dict(os.environ, VERIF_REPO=d, VERIF_EVIDENCE_DIR=f"/tmp/verif-alt/{mid}/evidence",
                    VERIF_REPLAY_DIR=f"/tmp/verif-alt/{mid}/replays", VERIF_SHARDS=str(args.shards))
         for c in todo:
@@ -152,6 +152,7 @@ def main():
     ap.add_argument("--jobs", type=int, default=2)
     ap.add_argument("--shards", type=int, default=8)
     ap.add_argument("--baseline", action="store_true")
+    ap.add_argument("--baseline-only", action="store_true", help="only run the repo's baseline suite on each mutant")
     ap.add_argument("--default-checks", default="")
     ap.add_argument("--skip", default="", help="comma separated mutant ids (prefixes) to skip")
     ap.add_argument("--out", default=os.path.join(ROOT, "sensitivity.json"))
